@@ -11,6 +11,9 @@ CHECKS = {
  "C18": dict(cat="exploration", technique="exhaustive enumeration of all (specifier, importer) pairs over a 7-symbol segment alphabet up to a length bound, each compared with an independent reference resolver",
     text="Complete enumeration (13 M pairs quick, >1.4 G pairs thorough: specifier<=5 x importer<=4 segments and total<=7 segments) of the property's own alphabet; every pair is resolved by the real ModulePath::resolve and compared with an independent join/normalise/clamp reference plus the separately stated invariants (absolute, canonical, no trailing slash, idempotent, bare pass-through). The function is pure, so exhaustive enumeration within the bound is a complete decision for that bound.",
     note="Reference semantics for the importer's directory = text before the last '/'. The specifiers '.'/'..' alone and relative specifiers without an absolute importer are outside what the statement defines and only checked for no-panic.", ref="DESIGN.md section 5 C18"),
+ "C15": dict(cat="exploration", technique="exhaustive enumeration of structured families of doubles, decimal strings and digit/radix arguments, each checked against exact arithmetic (shortest round-trip digits, Fractions, modular integers)",
+    text="Every member of the structured families named by the property (all 2047 exponents x boundary mantissas, every power of 2 and 10 with neighbours, integers around 2^31/2^32/2^53/10^21, notation boundaries, d x 10^e strings for all exponents, exact halfway expansions, every digit count 0..100, every radix 2..36) is pushed through the real entry points (number_to_string / string_to_number directly; literals, String(), templates, |0, >>>0, <<, Number(), parseFloat, toFixed/toPrecision/toExponential/toString(radix) in-program) and compared with an exact reference: 80 k cases quick, 2.8 M thorough. The functions are pure, so enumeration of the families is a complete decision within them.",
+    note="The 2^64 bit patterns are covered by structured families only (no claim beyond them). Reference: Python repr (shortest, closest, even), float() correctly rounded, Fraction arithmetic with the specification's tie rule; radix output compared only where exact.", ref="DESIGN.md section 5 C15"),
 }
 NA_DEFAULT = "check not built yet (build in progress; see DESIGN.md section 8)"
 NA = {}
